@@ -829,9 +829,12 @@ func ruleC13_1(c *Ctx, r *Rep) {
 	r.Check("C13.1", "C13.1:partition@"+fnSeekTime, a.Pos, ok, "ack{published_at <= T} / re-open{published_at > T} over the same T = params.Time", msg)
 	// extra restricting atoms beyond the allowed ones would leave part of the backlog untouched
 	for i, s := range []*Stmt{a, b} {
-		_, extra, _ := c.matchAtoms(s.Where, []ap{{col: "subscription_id", ops: []string{"eq"}}, {col: "published_at", ops: []string{"lte", "gt"}}},
-			[]ap{{col: "expires_at", ops: []string{"gte", "gt"}}, {col: "completed_at", ops: []string{"isnull", "notnull"}}})
+		missA, extra, _ := c.matchAtoms(s.Where, []ap{{col: "subscription_id", ops: []string{"eq"}}, {col: "published_at", ops: []string{"lte", "gt"}}, {col: "expires_at", ops: []string{"gte", "gt"}}},
+			[]ap{{col: "completed_at", ops: []string{"isnull", "notnull"}}})
 		r.Check("C13.1", fmt.Sprintf("C13.1:no-extra-atom#%d@%s", i+1, fnSeekTime), s.Pos, len(extra) == 0, "", "seek half restricted by an extra atom: "+c.predsString(extra))
+		// only unexpired deliveries take part in a time seek (a message past its retention is not restored: it would
+		// come back behind its already delivered ordered successor)
+		r.Check("C13.1", fmt.Sprintf("C13.1:unexpired-only#%d@%s", i+1, fnSeekTime), s.Pos, len(missA) == 0, "", "a half of the time seek is not restricted to unexpired deliveries (expires_at >= now): "+strings.Join(missA, ", "))
 	}
 	cn := b.Find("", "completed_at", "notnull")
 	r.Check("C13.1", "C13.1:reopen-only-completed@"+fnSeekTime, b.Pos, len(cn) == 1 && b.Unconditional(cn[0]), "re-open touches only completed deliveries",
@@ -1293,7 +1296,9 @@ func ruleC14_4(c *Ctx, r *Rep) {
 		r.Fail("C14.4", "C14.4:shape@"+fnExpireSubs, fn.Pos(), "expiry sweep must select and then soft-delete")
 		return
 	}
-	miss, extra, m := c.matchAtoms(sel.Where, []ap{{col: "expires_at", ops: []string{"lt", "lte"}}}, []ap{{col: "deleted_at", ops: []string{"isnull"}}})
+	// (live rows only: a sweep that re-selects already deleted subscriptions re-stamps their deleted_at every round —
+	// they never age past the prune threshold — and spends its batch on them)
+	miss, extra, m := c.matchAtoms(sel.Where, []ap{{col: "expires_at", ops: []string{"lt", "lte"}}, {col: "deleted_at", ops: []string{"isnull"}}}, nil)
 	ok := len(miss) == 0 && len(extra) == 0
 	if ok {
 		a := m[(ap{col: "expires_at", ops: []string{"lt", "lte"}}).String()]
@@ -1360,6 +1365,26 @@ func ruleC15_1(c *Ctx, r *Rep) {
 				}
 			}
 			r.Check("C15.1", "C15.1:childless@"+sp.fn, s.Pos, ok, "NOT EXISTS "+notExists[sp.fn], "the job does not require the row to have no "+notExists[sp.fn]+" at all: a parent of live children would be selected (or dead rows with completed children are never reclaimed if the predicate is narrowed)")
+		}
+	}
+	// the expiry prune compares with the clock itself: `expires_at < now` (an offset into the future removes deliveries
+	// that are still within their retention)
+	if fn := c.Fn(fnPruneED); fn != nil {
+		for _, s := range c.findStmts(fnPruneED, "deliveries", "select") {
+			for _, a := range s.Atoms() {
+				if a.Kind != "atom" || a.Col != "expires_at" || a.Arg == nil {
+					continue
+				}
+				call, isC := resolve(a.Arg).(*ssa.Call)
+				okNow := isC && call.Call.StaticCallee() != nil && call.Call.StaticCallee().Name() == "Now" && fnPkgPath(call.Call.StaticCallee()) == "time"
+				if !okNow && isC && nowMinusAge(c, a.Arg, 0) {
+					okNow = true // older than now − MinAge is a subset of expired
+				}
+				if p, isP := resolve(a.Arg).(*ssa.Parameter); isP && p.Name() == "now" {
+					okNow = true
+				}
+				r.Check("C15.1", "C15.1:expired-means-before-now@"+fnPruneED, a.Pos, okNow, "", "the expiry prune does not compare expires_at with the current time itself: with a cutoff in the future it hard-deletes deliveries that are still within their retention")
+			}
 		}
 	}
 	// thresholds: now (taken in Execute) minus MinAge
